@@ -60,7 +60,7 @@ func H_C03_diff() {
 	n, err := ygot.Diff(a, b)
 	symReach("diffed")
 	symAssert(err == nil, "Diff fails on valid trees")
-	backI, _ := ygot.DeepCopy(a)
+	backI := symSnapshot(a) // engine-made copy, independent of ygot.DeepCopy
 	back := backI.(*Device)
 	schema := &ytypes.Schema{Root: back, SchemaTree: SchemaTree, Unmarshal: Unmarshal}
 	err = ytypes.UnmarshalNotifications(schema, []*gpb.Notification{n})
@@ -108,7 +108,7 @@ func H_C03_atomic() {
 	ns, err := ygot.DiffWithAtomic(a, b)
 	symReach("diffed")
 	symAssert(err == nil, "DiffWithAtomic fails on valid trees")
-	backI, _ := ygot.DeepCopy(a)
+	backI := symSnapshot(a) // engine-made copy, independent of ygot.DeepCopy
 	back := backI.(*Device)
 	schema := &ytypes.Schema{Root: back, SchemaTree: SchemaTree, Unmarshal: Unmarshal}
 	err = ytypes.UnmarshalNotifications(schema, ns)
